@@ -145,11 +145,11 @@ def run_outcome_table():
     """How a run ends for its caller, obtained by EXECUTING the real `run_suites` (under the run-level recorder) on a
     three-test project for every combination of: a reporting backend that raises (on an early event / on a late one /
     never) x the CLASS of what it raises (a user-defined Exception; StopIteration / StopAsyncIteration — Exceptions the
-    iteration protocols give a meaning to; GeneratorExit / SystemExit / KeyboardInterrupt — BaseExceptions `except
-    Exception` does not catch) x a keyboard interrupt while the caller waits for a completion (early / late / never).
+    iteration protocols give a meaning to; GeneratorExit / SystemExit / KeyboardInterrupt — BaseExceptions that are no
+    Exception, recorded like the others since fix D42) x a keyboard interrupt while the caller waits for a completion (early / late / never).
     Row input: the facts of that run (interrupt delivered, backend raised, report successful, class name); output: what
-    the caller saw — the returned verdict, or the class of the raised error and whether it carries the backend's
-    original text."""
+    the caller saw — the returned verdict, or whether the raised error carries the backend's original text and
+    whether it is the framework's LemoncheesecakeException or an instance of the failure's own class."""
     from run import observe as O
     from run import oracles as X
     from run.selftest import _p, _s, _t, _LOG
@@ -173,13 +173,13 @@ def run_outcome_table():
             elif oc.get("raised") == "KeyboardInterrupt" and "T" not in oc.get("text", ""):
                 out = "raised-KeyboardInterrupt"
             elif "raised" in oc and "T" in oc.get("text", ""):
-                out = "raised-backend-error:T"
+                # ... and as what: the framework's own exception, or (an instance of) the failure's own class
+                out = "raised-backend-error:T:" + ("framework" if oc["raised"] == "LemoncheesecakeException" else "own")
             elif "raised" in oc:
                 out = "raised-other:" + oc["raised"]
             else:
                 out = "hang"
-            caught = cls not in O.BASE_FAULT_CLASSES
-            key = (interrupted, failed, successful if not (failed and caught) else False, cls if failed else "Custom")
+            key = (interrupted, failed, successful if not failed else False, cls if failed else "Custom")
             if (key, out) in seen:
                 continue
             seen.add((key, out))
